@@ -283,6 +283,11 @@ cdef class LineProfiler:
             # code hash already exists, so there must be a duplicate function. add no-op
             co_padding : bytes = NOP_BYTES * (len(self.dupes_map[code.co_code]) + 1)
             co_code = code.co_code + co_padding
+            # a duplicate that was registered again may already have been
+            # padded to this length: keep registered bytecodes unique
+            registered = {c.co_code for c in self.code_hash_map}
+            while co_code in registered:
+                co_code += NOP_BYTES
             CodeType = type(code)
             code = _code_replace(func, co_code=co_code)
             try:
